@@ -484,7 +484,9 @@ func (rn *Runner) Run(prop string, streams []Stream) (*Report, error) {
 				}
 				caseNo--
 				jobs <- job{s, c, caseNo}
+				mu.Lock() // the workers are already running and write the histograms too
 				rep.Histograms["corpus:"+s.Name()]++
+				mu.Unlock()
 			}
 		}
 		n := s.Cases(rn.Tier)
